@@ -125,6 +125,7 @@ structure St where
 
 def resTag (sst : List Tok) : Res → String
   | .ok => "ok" | .err => "E_REF" | .style n => s!"style {n}"
+  | .merges l => "gm " ++ String.intercalate ";" (l.map fun m => rectRef m.ref)
   | .cell none => "none"
   | .cell (some c) => s!"{nameOf c.col c.row}={cellTok sst c.val}"
 
